@@ -585,7 +585,7 @@ impl Check for C06 {
         behave::calibrate()
     }
     fn rule(&self) -> String {
-        "exhaustive: EVERY matrix of <= R rows (R=3 quick, 4 thorough) whose rows are drawn from all patterns of depth <= 2 (wildcard, variable, literal, constructor, tuple) over the four types bool, Opt[bool], (bool,bool), enum E{A,B(bool),C(bool,bool)}; random: 1..6 rows of patterns of depth <= 3 over random types built from bool, int32, uint8, string, unit, tuples, a struct, two enums and the generic Opt[T]; let: one refutable or irrefutable pattern in a destructuring let. Each matrix becomes a program whose function matches a ticked scrutinee (so a second evaluation would print twice), each arm returns its index and all bound variables; main applies it to ALL values of the scrutinee type over the representative leaf domains (ints {0,1,2,7}, strings {\"\",a,b,zz}) that some row matches and then to one unmatched value, after which nothing may be printed. Oracle: stdout and end state (normal / failed match at that point) under miniGo equal the reference first-match semantics; a compile-time rejection is accepted only as 'non-exhaustive match on integer literal' for matrices with integer literal patterns. Non-trivial = >= 2 rows with a catch-all row and a refutable row (row order matters); distinct by program text.".into()
+        "exhaustive: EVERY matrix of <= R rows (R=3 quick, 4 thorough) whose rows are drawn from all patterns of depth <= 2 (wildcard, variable, literal, constructor, tuple) over the four types bool, Opt[bool], (bool,bool), enum E{A,B(bool),C(bool,bool)}; random: 1..6 rows of patterns of depth <= 3 over random types built from bool, int32, uint8, string, unit, tuples, a struct, two enums and the generic Opt[T]; let: one refutable or irrefutable pattern in a destructuring let. Each matrix becomes a program whose function matches a ticked scrutinee (so a second evaluation would print twice), each arm returns its index and all bound variables; main applies it to ALL values of the scrutinee type over the representative leaf domains (ints {0,1,2,7}, strings {\"\",a,b,zz}) that some row matches and then to one unmatched value, after which nothing may be printed. Oracle: stdout and end state (normal / failed match at that point) under miniGo equal the reference first-match semantics; a compile-time rejection is accepted only as 'non-exhaustive match on integer literal' for matrices with integer literal patterns. Non-trivial = >= 2 rows with a catch-all row and a refutable row (row order matters); distinct by program text. Struct patterns list their fields in declaration order, reversed or rotated. A fifth of the random matrices are effect-only matches: the match is a statement whose result is discarded, its arms are `()` except the catch-all arms and every second arm, which print their index.".into()
     }
     fn assumptions(&self) -> Vec<String> {
         vec![
